@@ -1,5 +1,6 @@
-\* every unordered pair of methods: the initial states (Next disabled by the constraint)
+\* every unordered pair of methods: the initial states (Next disabled by the constraint); one rotating cipher/FEC class and target per pair
 SPECIFICATION Spec
+CONSTANT AllCombos = FALSE
 INVARIANT Emit
 CONSTRAINT PairsOnly
 CHECK_DEADLOCK FALSE
